@@ -155,6 +155,23 @@ Example eq_without_dose_fixed :
   cs_eq strG sys_nodose sys_nodose = true.
 Proof. repeat split; vm_compute; reflexivity. Qed.
 
+(* ==== open: C12-EQ-DOSING-ORDER — == depends on the graph order through dosing_compartments: the
+   same two-output system entered in two orders has the same t, compartments and flows and the same
+   encoding (hence the same key), yet == says False ==== *)
+Definition perdose : compartment strG :=
+  mkComp strG "PERIPHERAL2" "Function('A_PERIPHERAL2')(Symbol('t'))" [Bolus strG "Symbol('AMT')" 1%Z] zero zero one.
+Definition metab : compartment strG :=
+  mkComp strG "METABOLITE" "Function('A_METABOLITE')(Symbol('t'))" [] zero zero one.
+Definition sys_pm : csys strG :=
+  mkCs strG [(NOut strG, []); (NComp strG perdose, [(NOut strG, "Symbol('K2')")]); (NComp strG metab, [(NOut strG, "Symbol('K1')")])] "Symbol('t')".
+Definition sys_mp : csys strG :=
+  mkCs strG [(NOut strG, []); (NComp strG metab, [(NOut strG, "Symbol('K1')")]); (NComp strG perdose, [(NOut strG, "Symbol('K2')")])] "Symbol('t')".
+Theorem eq_dosing_order_refuted :
+  cs_ok strG sys_pm = true /\ cs_ok strG sys_mp = true /\ dosing_agree (OCs sys_pm) (OCs sys_mp) = false /\
+  cs_math_equal sys_pm sys_mp = true /\ cs_canon strG sys_pm = cs_canon strG sys_mp /\
+  cs_eq strG sys_pm sys_mp = false.
+Proof. repeat split; vm_compute; reflexivity. Qed.
+
 (* ---- not a finding, but the reason for a side condition: a NaN bound (only the plain
    constructor accepts one since caae827): the round trip is exact, yet == says False ---- *)
 Example nan_bound_unequal :
